@@ -547,7 +547,7 @@ def equal_arrays(a, b):
     return all(a[idx] == b[idx] for idx in numpy.ndindex(*a.shape))
 
 
-def diff_arrays(got, want, rtol=None):
+def diff_arrays(got, want, rtol=None, atol=0.0):
     """None when equal, else a short description of the first difference.
 
     With ``rtol`` every coefficient may deviate by ``rtol * scale`` where
@@ -563,7 +563,7 @@ def diff_arrays(got, want, rtol=None):
         if rtol is not None:
             scale = max(1.0, g.max_abs(), w.max_abs())
             delta = g - w
-            if delta.max_abs() <= rtol * scale:
+            if delta.max_abs() <= rtol * scale + atol:
                 continue
         return f"element {idx}: got {short(g)} expected {short(w)}"
     return None
